@@ -15,6 +15,7 @@ RULE = ('every opcode cell of the 1-byte, 0F, 0F38 and 0F3A maps x all 256 ModRM
         'F2, F3, F0 where the reference finds them meaningful (thorough; quick on a reduced ModRM set), + the complete 16-bit ModRM table (all 256 ModRM values of every opcode cell under 67; thorough also 66 67 and 67 2e). Restricted, as the statement says, to '
         'strings that miasmX and objdump both accept as one instruction without superfluous prefixes. A case = the byte string; non-trivial = '
         'both decoders accept; classes = (opcode cell, prefix, mod).')
+RULE += " Round 6: a 'stringops' shard puts the string instructions and the other prefix-sensitive one-byte opcodes under every ordered pair and some triples of rep / operand-size / address-size / segment prefixes; where GNU as cannot read a rendering, the repeat prefix is compared as well wherever IA-32 gives it a meaning (f3 on every string instruction, f2 on cmps/scas)."
 ASSUMPTIONS = ['GNU binutils 2.40 (objdump -M intel, as --32) is the reading of IA-32 bytes and Intel text; LLVM 14 llvm-objdump is the tie-breaker: '
                'when it disagrees with objdump about the length the case is a reference disagreement, not a violation',
                'a rendering GNU as cannot read is undecided here (C09 judges readability)']
@@ -198,7 +199,7 @@ def run_shard(shard, tier, seed):
             for b, cls in x86space.strings_for_cell(cell, tier, seed, prefixes=x86space.STD_PREFIXES, sibs=sibs, nfill=1 if tier == 'quick' else 3):
                 items.append((b, cls))
     elif shard[0] == 'grids':
-        items = list(x86space.sib_grid(tier)) + list(x86space.disp_grid(tier))
+        items = list(x86space.sib_grid(tier)) + list(x86space.disp_grid(tier)) + list(x86space.count_grid(tier))
     elif shard[0] == 'stringops':
         # string instructions and the other prefix-sensitive one-byte opcodes under every pair (both orders) and some triples of
         # repeat x operand-size x address-size x segment prefixes: the only place where three prefix kinds all change the meaning
